@@ -74,6 +74,7 @@ with open(os.path.join(TMP, "verifmods-0.0.dist-info", "entry_points.txt"), "w")
 sys.path.insert(0, TMP)
 
 import anyio  # noqa: E402
+from guard import guarded_run  # noqa: E402
 import verifmods  # noqa: E402
 from asphalt.core import Context, start_component  # noqa: E402
 
@@ -161,7 +162,7 @@ def main():
             async def runner():
                 with anyio.fail_after(20):
                     return await run_case(case)
-            out.append(anyio.run(runner, backend=case["backend"]))
+            out.append(guarded_run(runner, backend=case["backend"]))
         except BaseException:  # noqa
             import traceback
             out.append({"k": "crash", "detail": traceback.format_exc()[-1500:]})
